@@ -8,7 +8,7 @@
      pkg/haproxy/dynupdate.go       update / checkConfigChange, reduced to "is this update a no-op"
      pkg/haproxy/instance.go        HAProxyUpdate (deferred Commit, lastFailed), writeCrtLists,
                                     writeConfig (main file always, shards only ChangedShards), Reload
-   as they are after the fix commits c6e0f62, f296c05, 742b5de (C05) and 348fb25 (C12).
+   as they are after the fix commits c6e0f62, f296c05, 742b5de (C05) and 348fb25, 7d37a3e (C12).
 
    Go maps are finite partial functions [N -> option _]; the places where the code ranges
    over a map (Shrink, Clear, Changed ...) quantify over an explicit finite universe of
@@ -404,12 +404,16 @@ Definition shard_fails (e : env) (fs : list fpoint) (c : config) (upto : option 
   existsb (fun p => match p with
                     | FShard k => (k <? nsh e) && b_chg (c_b c) k && match upto with Some j => k <=? j | None => true end
                     | _ => false end) fs.
-Definition ph_config (e : env) (fs : list fpoint) (c : config) (d : disk) : disk * bool :=
+(* [cl] = shardsClean: this instance already wrote a configuration.  The first configuration
+   an instance writes also removes the backend files it did not write (removeStaleShards). *)
+Definition ph_config (e : env) (fs : list fpoint) (cl : bool) (c : config) (d : disk) : disk * bool :=
   if armed fs FMain then (d, true) else
   let d1 := with_main d (Some (render_main e c)) in
   let wr := fun j => (j <? nsh e) && b_chg (c_b c) j && negb (shard_fails e fs c (Some j)) in
-  (with_shard d1 (fun j => if wr j then Some (restrict_shard e (b_items (c_b c)) j) else d_shard d1 j),
-   shard_fails e fs c None).
+  let failed := shard_fails e fs c None in
+  (with_shard d1 (fun j => if wr j then Some (restrict_shard e (b_items (c_b c)) j)
+                           else if cl || failed then d_shard d1 j else None),
+   failed).
 
 (* ---------------------------------------------------------------- the instance *)
 
@@ -417,14 +421,15 @@ Record inst := {
   i_cfg : config;
   i_disk : disk;
   i_failed : bool;              (* lastFailed *)
+  i_clean : bool;               (* shardsClean *)
   i_running : option disk;      (* what the running haproxy loaded at its last successful reload *)
   i_pending : bool              (* a reload sits in the reload queue *)
 }.
 Definition inst_empty : inst :=
-  {| i_cfg := config_empty; i_disk := disk_empty; i_failed := false; i_running := None; i_pending := false |}.
+  {| i_cfg := config_empty; i_disk := disk_empty; i_failed := false; i_clean := false; i_running := None; i_pending := false |}.
 
-Definition finish (s : inst) (c : config) (d : disk) (run : option disk) (pend : bool) (err : bool) : inst * bool :=
-  ({| i_cfg := config_commit c; i_disk := d; i_failed := err; i_running := run; i_pending := pend |}, err).
+Definition finish (c : config) (d : disk) (cl : bool) (run : option disk) (pend : bool) (err : bool) : inst * bool :=
+  ({| i_cfg := config_commit c; i_disk := d; i_failed := err; i_clean := cl; i_running := run; i_pending := pend |}, err).
 
 (* HAProxyUpdate with the fault points [fs] armed; returns the new instance and err != nil *)
 Definition update_f (e : env) (fs : list fpoint) (s : inst) : inst * bool :=
@@ -432,26 +437,26 @@ Definition update_f (e : env) (fs : list fpoint) (s : inst) : inst * bool :=
   let c1 := if i_failed s then config_change_all e c0 else c0 in
   let d0 := i_disk s in
   let (d1, err1) := ph_tcpmaps e fs c1 d0 in
-  if err1 then finish s c1 d1 (i_running s) (i_pending s) true else
+  if err1 then finish c1 d1 (i_clean s) (i_running s) (i_pending s) true else
   let '(c2, d2, err2) := ph_front e fs c1 d1 in
-  if err2 then finish s c2 d2 (i_running s) (i_pending s) true else
+  if err2 then finish c2 d2 (i_clean s) (i_running s) (i_pending s) true else
   let (d3, err3) := ph_backmaps e fs c2 d2 in
-  if err3 then finish s c2 d3 (i_running s) (i_pending s) true else
+  if err3 then finish c2 d3 (i_clean s) (i_running s) (i_pending s) true else
   let (d4, err4) := ph_tcpcrt e fs c2 d3 in
-  if err4 then finish s c2 d4 (i_running s) (i_pending s) true else
-  if updated e c2 then finish s c2 d4 (i_running s) (i_pending s) false else
-  let (d5, err5) := ph_config e fs c2 d4 in
-  if err5 then finish s c2 d5 (i_running s) (i_pending s) true else
+  if err4 then finish c2 d4 (i_clean s) (i_running s) (i_pending s) true else
+  if updated e c2 then finish c2 d4 (i_clean s) (i_running s) (i_pending s) false else
+  let (d5, err5) := ph_config e fs (i_clean s) c2 d4 in
+  if err5 then finish c2 d5 (i_clean s) (i_running s) (i_pending s) true else
   if inline e then
-    if armed fs FReloadRequest || armed fs FReloadResult then finish s c2 d5 (i_running s) (i_pending s) true
-    else finish s c2 d5 (Some d5) (i_pending s) false
-  else finish s c2 d5 (i_running s) true false.
+    if armed fs FReloadRequest || armed fs FReloadResult then finish c2 d5 true (i_running s) (i_pending s) true
+    else finish c2 d5 true (Some d5) (i_pending s) false
+  else finish c2 d5 true (i_running s) true false.
 
 Definition update (e : env) (s : inst) : inst * bool := update_f e [] s.
 
 (* one reconciliation: the converters' calls, then the update *)
 Definition sync (e : env) (s : inst) (l : list op) : inst :=
-  {| i_cfg := apply_ops e (i_cfg s) l; i_disk := i_disk s; i_failed := i_failed s;
+  {| i_cfg := apply_ops e (i_cfg s) l; i_disk := i_disk s; i_failed := i_failed s; i_clean := i_clean s;
      i_running := i_running s; i_pending := i_pending s |}.
 Definition step (e : env) (s : inst) (l : list op) : inst * bool := update e (sync e s l).
 Definition run (e : env) (s : inst) (h : list (list op)) : inst := fold_left (fun s l => fst (step e s l)) h s.
